@@ -82,7 +82,7 @@ func (w *worker) executeWide(n int, hist []Op, verbose bool) (r execResult) {
 		os.RemoveAll(dir)
 	}()
 	m := newModel()
-	book := &inoBook{m: m, ino: map[*inode]uint64{}}
+	book := newBook(m, dir)
 	say := func(f string, a ...any) {
 		if verbose {
 			fmt.Printf(f+"\n", a...)
@@ -91,8 +91,7 @@ func (w *worker) executeWide(n int, hist []Op, verbose bool) (r execResult) {
 	ctxs := fmt.Sprintf("with %d descriptors opened (fds 4..%d)", n, n+3)
 	for i := 0; i < n; i++ {
 		o := Op{K: "path_open", Fd: 3, P: "a", Mode: "RO"}
-		exp := m.apply(&o)
-		res := x.do(&o)
+		exp, res := step(m, x, &o)
 		if f, d := compare(exp, res, book); f != "" {
 			r.mism = &mismatch{Sig: "wide-table:prepare:path_open:" + f, What: fmt.Sprintf("opening descriptor #%d: %s", i+1, d)}
 			return
@@ -102,8 +101,7 @@ func (w *worker) executeWide(n int, hist []Op, verbose bool) (r execResult) {
 	touched := []int32{}
 	for i := range hist {
 		o := &hist[i]
-		exp := m.apply(o)
-		res := x.do(o)
+		exp, res := step(m, x, o)
 		say("  step %d: %-30s -> errno=%d n=%d trap=%q | model: %s", i, o.String(), res.Errno, res.N, res.Trap, expString(exp))
 		if i == len(hist)-1 {
 			if res.Errno == 0 {
@@ -141,8 +139,7 @@ func (w *worker) executeWide(n int, hist []Op, verbose bool) (r execResult) {
 	}
 	probes = append(probes, Op{K: "path_open", Fd: 3, P: "a", Mode: "RO"}) // allocation probe
 	for _, o := range probes {
-		exp := m.apply(&o)
-		res := x.do(&o)
+		exp, res := step(m, x, &o)
 		if f, d := compare(exp, res, book); f != "" {
 			say("  probe %s -> errno=%d n=%d | model: %s", o.String(), res.Errno, res.N, expString(exp))
 			r.mism = &mismatch{Sig: "wide-table:" + last + ":post:" + o.K + ":" + f, Step: len(hist),
